@@ -318,4 +318,54 @@ func init() {
 			return out
 		}})
 	}})
+	// ---- the initiator disconnects while it is still dialling the further links of the pool ----------
+	for _, who := range []string{"initiator", "acceptor"} {
+		who := who
+		harn.Register(harn.Scenario{Property: "C14", Name: "disconnect-while-pool-fills-by-" + who, Run: func(c *harn.Ctx) *harn.Result {
+			return harn.Explore(c, harn.Sched{QuickBound: 1, ThoroughBound: 2, Preempt: false, Cache: true, HorizonS: 30, Body: netBody(netOpts{}, func(nw *NetWorld) {
+				oa := remoteObserver(nw.a, "OA")
+				ob := remoteObserver(nw.b, "OB")
+				var errA, errB error
+				monA, monB := false, false
+				nw.connectDialing(func() {
+					nw.a.n.Send(nw.a.pids["OA"], doMsg{func(p *probe) error { errA = p.MonitorNode(nw.b.n.Name()); monA = true; return nil }})
+				}, func() {
+					nw.b.n.Send(nw.b.pids["OB"], doMsg{func(p *probe) error { errB = p.MonitorNode(nw.a.n.Name()); monB = true; return nil }})
+				})
+				nw.ex.ThreadLow("DISC", func() {
+					side, peer := nw.a.n, nw.b.n
+					if who == "acceptor" {
+						side, peer = nw.b.n, nw.a.n
+					}
+					vsched.Block(vsched.OpUser, 0, func() bool { _, err := side.network.Node(peer.Name()); return err == nil })
+					if rn, err := side.network.Node(peer.Name()); err == nil {
+						rn.Disconnect()
+					}
+				})
+				nw.Check = func() {
+					_, ea := nw.a.n.network.Node(nw.b.n.Name())
+					_, eb := nw.b.n.network.Node(nw.a.n.Name())
+					if (ea == nil) != (eb == nil) {
+						nw.ex.Fail("half-connected", "after the %s disconnected: a sees b: %v, b sees a: %v (links %d)", who, ea == nil, eb == nil, len(nw.links))
+					}
+					for _, x := range []struct {
+						o    *observer
+						err  error
+						done bool
+						gone bool
+						name string
+					}{{oa, errA, monA, ea != nil, "a"}, {ob, errB, monB, eb != nil, "b"}} {
+						if x.done && x.err == nil && x.gone && len(x.o.notifs) != 1 {
+							nw.ex.Fail("node-down-count", "observer on %s monitors the peer node (acknowledged), the connection is gone, notifications: %v", x.name, x.o.notifs)
+						}
+						if x.done && x.err == nil && !x.gone && (ea != nil || eb != nil) && len(x.o.notifs) == 0 {
+							nw.ex.Fail("node-down-missed", "observer on %s monitors the peer node; the peer has dropped the connection, this side still holds it and the observer was not told", x.name)
+						}
+					}
+					nw.Out("a->b=%v b->a=%v oa=%v ob=%v links=%d", ea == nil, eb == nil, oa.notifs, ob.notifs, len(nw.links))
+				}
+			})})
+		}})
+	}
+
 }
